@@ -6,8 +6,7 @@
 package c15
 
 import (
-	"fmt"
-	"time"
+	"os"
 
 	"mellium.im/xmpp/verifharness/core"
 )
@@ -26,17 +25,17 @@ func kindOf(i int) string {
 }
 
 func run(c *core.Case) {
+	if w := os.Getenv("C15_WITNESS"); w != "" {
+		// debugging aid: run a pinned witness as the case
+		if f := witnesses()[w]; f != nil {
+			f(c)
+		}
+		return
+	}
 	if c.Tier == "thorough" && c.Index == 0 {
 		runWrap(c)
 		return
 	}
-	t0 := time.Now()
-	defer func() {
-		c.Count("zz_ms_"+kindOf(c.Index), int(time.Since(t0).Milliseconds()))
-		if time.Since(t0) > 3*time.Second {
-			c.Count(fmt.Sprintf("zz_slow_%d", c.Index), int(time.Since(t0).Milliseconds()))
-		}
-	}()
 	switch kindOf(c.Index) {
 	case "transfer":
 		runTransfer(c)
